@@ -163,6 +163,7 @@ func convertIPSet(in []aliyunClient.IPSet) map[string]*networkv1beta1.IP {
 	})
 }
 
+// current must not be nil: entries are merged into the caller's map.
 func mergeIPMap(log logr.Logger, remote, current map[string]*networkv1beta1.IP) {
 	// delete remote not in current
 	for k := range current {
@@ -177,9 +178,6 @@ func mergeIPMap(log logr.Logger, remote, current map[string]*networkv1beta1.IP) 
 	for k, v := range remote {
 		_, ok := current[k]
 		if !ok {
-			if current == nil {
-				current = make(map[string]*networkv1beta1.IP)
-			}
 			current[k] = v
 			log.Info("sync eni with remote, add ip to local", "ip", k)
 		}
